@@ -2,12 +2,17 @@ from props._kt import *
 
 PROPERTY = 'C04'
 LEVEL = 'proof'
-HARNESS_FILES = ['kani/aranya-runtime/command.rs', 'kani/aranya-runtime/client.rs', 'kani/aranya-runtime/mocks.rs']
+HARNESS_FILES = ['kani/aranya-runtime/braiding.rs', 'kani/aranya-runtime/command.rs', 'kani/aranya-runtime/client.rs', 'kani/aranya-runtime/mocks.rs']
 UNITS = [
     Kani('command::verif_kani::c04_merge_ids_normalised', fns=[Fn('crates/aranya-runtime/src/policy.rs', 'new', r'impl MergeIds')],
          contract='MergeIds::new is order-normalising (smaller id first) and refuses equal ids: collapse and the virtual hello head derive the same merge ids from the same pair', **RT),
     Kani(MC + 'c07_action_trace', fns=[Fn(C, 'action', CI)], covers=2, cap_s=900, stubs=['collapse_heads'],
          contract='the collapse performed by an action emits nothing to the caller sink: the first sink event is Begin, after the collapse (collapse_heads takes no sink at all)', **RT),
+    Kani('client::braiding::verif_kani::c04_lca_three_heads_common_ancestor',
+         fns=[Fn('crates/aranya-runtime/src/client/braiding.rs', 'last_common_ancestor'), Fn('crates/aranya-runtime/src/client/braiding.rs', 'lca_pair')],
+         kind='bounded', bound='trunk of 2..6 commands, two single-command tips at symbolic heights, all 6 head orders', covers=1, cap_s=900,
+         contract='the N-way LCA the commit-time braid (queries) cuts at is a command of the graph and an ancestor-or-self of every head, for every head order: '
+                  'no command between the true LCA and the cut is dropped from the merged fact index', **RT),
 ]
 TRUSTED = KT_TRUSTED
 ASSUMPTIONS = ['equality of the fact state seen by queries and by actions after the collapse depends on C03 (reference braid) and is NOT decided',
@@ -15,7 +20,7 @@ ASSUMPTIONS = ['equality of the fact state seen by queries and by actions after 
 EXPLANATION = 'Two mechanisms: merge-id normalisation (full domain) and "collapse emits no effects" (trace contract of action).'
 MANIFEST = {
     'text': 'Proof of two mechanisms: merge ids are normalised independently of argument order, and the head collapse inside an action reaches the caller sink with no event. '
-            'Fact-state equality between the lazy view and the collapsed head is not decided.',
+            'The N-way LCA used by the commit-time braid is a common ancestor of all heads (bounded shapes). Fact-state equality between the lazy view and the collapsed head in general is not decided.',
     'note': 'Mechanism contracts only (PROVED-LOCAL).',
-    'technique': 'Kani contract harness + trace contract over havoc traits',
+    'technique': 'Kani contract harnesses (full-domain and bounded graph shapes) + trace contract over havoc traits',
 }
